@@ -289,9 +289,12 @@ func (c *columnKey) Apply(chunk commit.Chunk, r *commit.Reader) {
 		case commit.Put:
 			value := string(r.Bytes())
 
+			c.lock.Lock()
+			if old := data[offset]; fill.Contains(uint32(offset)) && old != value && c.seek[old] == uint32(r.Offset) {
+				delete(c.seek, old) // the row is re-keyed, its old key must not resolve to it any more
+			}
 			fill[offset>>6] |= 1 << (offset & 0x3f)
 			data[offset] = value
-			c.lock.Lock()
 			c.seek[value] = uint32(r.Offset)
 			c.lock.Unlock()
 
